@@ -4,7 +4,9 @@ For each managed kind a loop creates and drops garbage of that kind next to a
 fixed live set, for n in {0,1,2,4,16,64,256} iterations and every sequence of <= 3
 forced collections from {nursery, full} at iteration boundaries; the run ends
 with a forced full collection and the runtime's books are compared with the
-harness allocator's own records (hook H3 + harness allocator).
+harness allocator's own records (hook H3 + harness allocator). The same runs are also stopped
+without the final collection (n in {0,1,4,64}): bytes_allocated, which the collection trigger
+compares with next_gc, must equal the sum of the blocks owned at that point too.
 Checked per run: reported bytes == sum of the sizes the allocator handed out for
 the blocks the runtime owns; per-block size agreement; intern table == live
 string blocks (keys inside their blocks); next_gc == 2 x bytes; every release
@@ -41,10 +43,13 @@ KINDS = {
     "sort": "let l = [3, 1, i].sort(|a, b| Number.cmp(a, b)); l.rev(); l.slice(1);",
     "number_str": "let s = (i + 0.5).str(); let n = Number.parse(s);",
     "stackgrow": "fn deep(n) { let a = [n]; if n == 0 { return 0; } return deep(n - 1) + a[0]; } deep(40);",
+    "collect": "let l = 50.times().into(List.collect); let t = 20.times().list(); let u = [1, 2, 3].iter().into(Tuple.collect); let e = 0.times().list(); l.push(i);",
+    "list_big": "let l = []; for j in 40.times() { l.push(j); } let m = l.slice(5); let r = l.rev();",
     "regexp": "let r = RegExp('a' + i.str()); r.test('a1'); r.captures('a' + i.str());",
 }
 PRE = "import std.regexp:{RegExp};\nclass Holder { init() { self.x = nil; self.y = nil; } get() { return self.x; } }\nlet keep = [Holder(), 'live' + 'set', {1: [2]}, (3, 4), || 5];\nlet kc = chan(1); let ks = chan();\n"
 NS = [0, 1, 2, 4, 16, 64, 256]
+MID_NS = [0, 1, 4, 64]
 SEQS = [()] + [s for n in (1, 2, 3) for s in itertools.product("nf", repeat=n)]
 
 
@@ -58,7 +63,7 @@ class C20(Check):
     id = "C20"
     level = "fault_enumeration"
     rule = ("one garbage-producing loop per managed kind (%d kinds) x n in %s iterations x every sequence of <= 3 forced collections "
-            "from {nursery, full} at iteration boundaries (%d sequences), each ended by a forced full collection; spec = (kind, "
+            "from {nursery, full} at iteration boundaries (%d sequences), each ended by a forced full collection (and, for n in {0,1,4,64}, also stopped without it: books == blocks between collections); spec = (kind, "
             "sequence), its cases are the runs for all n. non-trivial = the runs of the spec released at least one block during a "
             "collection and the final statistics were compared" % (len(KINDS), NS, len(SEQS)))
     assumptions = ["block sizes are taken from the harness allocator's own header (independent of Laythe's size() code)",
@@ -75,11 +80,27 @@ class C20(Check):
     def build(self, spec):
         kind, seq = spec
         ns = NS if True else NS
-        return [{"src": prog(kind, n, seq), "final_collect": True, "stats": True, "step_limit": 5000000} for n in ns], None
+        cases = [{"src": prog(kind, n, seq), "final_collect": True, "stats": True, "step_limit": 5000000} for n in ns]
+        # the same runs stopped without the final collection: the books must agree with the blocks at any point, not only right after a sweep
+        cases += [{"src": prog(kind, n, seq), "final_collect": False, "stats": True, "step_limit": 5000000} for n in MID_NS]
+        return cases, None
 
     def judge(self, spec, ctx, rs):
         released = 0
         base = None
+        for n, r in zip(MID_NS, rs[len(NS):]):
+            if r.get("class") != "ok" or not r.get("out", "").endswith("end 5\n"):
+                v = Verdict(False, True, "driver-failed", "driver program did not run (no final collection): n=%d class=%s err=%r %s" % (n, r.get("class"), r.get("err", "")[-300:], r.get("panic") or ""))
+                v.extra["machinery"] = True
+                return v
+            st = r["stats"]
+            if r.get("mismatch", 0) or r.get("bad_free", 0) or st["unknown_blocks"] or st["size_diff_blocks"] or st["sum_reported"] != st["sum_actual"]:
+                return Verdict(False, True, "size-mid", "n=%d, no final collection: blocks/sizes disagree with the allocator: unknown=%s size_diff=%s first=%s (sum reported %d, actual %d)" % (
+                    n, st["unknown_blocks"], st["size_diff_blocks"], st["first_size_diff"], st["sum_reported"], st["sum_actual"]))
+            if st["bytes_allocated"] != st["sum_actual"]:
+                return Verdict(False, True, "bytes-mid", "n=%d, between collections: bytes_allocated=%d but the blocks owned sum to %d (the collection trigger compares bytes_allocated with next_gc)" % (
+                    n, st["bytes_allocated"], st["sum_actual"]))
+        rs = rs[:len(NS)]
         for n, r in zip(NS, rs):
             if r.get("class") != "ok" or not r.get("out", "").endswith("end 5\n"):
                 v = Verdict(False, True, "driver-failed", "driver program did not run: n=%d class=%s err=%r %s" % (n, r.get("class"), r.get("err", "")[-300:], r.get("panic") or ""))
